@@ -453,6 +453,63 @@ class Item:
             raise LostAnchor("rename: identifier `%s` does not occur in the body of %s" % (old, self.path))
         self.log.append({"kind": "rename", "from": old, "to": new, "count": n, "why": why})
 
+    def enum_eq(self, prefix_src, count, why=""):
+        """`LHS == Prefix::Variant` / `LHS != Prefix::Variant` (derived PartialEq on a field-less enum) becomes
+        `matches!(LHS, Prefix::Variant)` / `!matches!(..)` for every comparison whose right-hand side is a path
+        starting with `prefix`.  The variant name is NOT part of the anchor, so changing it stays decidable.
+        LHS extends left to the nearest `if while ( , { ; = && || return =>` at the same bracket depth.
+        (The tokenizer yields one token per punctuation character: `==` is `=`,`=` with no space between.)"""
+        pre = texts(tokenize(prefix_src))
+        T = self.toks
+        stops = {"if", "while", ",", ";", "return"}
+        n = 0
+        i = len(T) - 1
+        while i >= 1:
+            if (T[i].s == "=" and T[i].ws == "" and T[i - 1].s in ("=", "!") and T[i].line != 0
+                    and texts(T[i + 1:i + 1 + len(pre)]) == pre
+                    and not (T[i - 1].s == "=" and i >= 2 and T[i - 2].s in ("=", "<", ">", "!") and T[i - 1].ws == "")):
+                j = i + 1 + len(pre)
+                if j >= len(T) or not _IDENT.fullmatch(T[j].s):
+                    i -= 1
+                    continue
+                end = j + 1
+                op = i - 1          # first char of the operator
+                k = op - 1
+                d = 0
+                while k >= 0:
+                    t = T[k].s
+                    if t in CLOSE:
+                        d += 1
+                    elif t in OPEN:
+                        if d == 0:
+                            break
+                        d -= 1
+                    elif d == 0 and (t in stops or (t in ("&", "|") and k >= 1 and T[k - 1].s == t and T[k].ws == "")
+                                     or (t == "=" and not (k >= 1 and T[k - 1].s in ("=", "!", "<", ">") and T[k].ws == ""))
+                                     or (t == ">" and k >= 1 and T[k - 1].s == "=" and T[k].ws == "")):
+                        break
+                    k -= 1
+                start = k + 1
+                line = T[i].line
+                neg = T[op].s == "!"
+                lhs = T[start:op]
+                rhs = T[i + 1:end]
+                if not lhs:
+                    raise LostAnchor("enum-eq: empty left-hand side in %s" % self.path)
+                head = tokenize(("!" if neg else "") + "matches!(")
+                for t in head:
+                    t.line = line
+                head[0].ws = lhs[0].ws if lhs[0].ws else " "
+                lhs[0].ws = ""
+                T[start:end] = head + lhs + [Tok("", ",", line)] + rhs + [Tok("", ")", line)]
+                n += 1
+                i = start
+            i -= 1
+        if n != count:
+            raise LostAnchor("enum-eq: %d comparisons against `%s..` in %s, expected %d" % (n, " ".join(pre), self.path, count))
+        self.log.append({"kind": "abstract-op", "what": "enum-eq", "prefix": " ".join(pre), "count": n,
+                         "why": why or "derived PartialEq on a field-less enum is variant equality"})
+
     def insert_at_signature(self, text):
         o = self.body_open()
         ins = tokenize("\n" + text + "\n")
